@@ -29,26 +29,26 @@ Read(o, l)    == [off |-> o, len |-> l]
 
 \* loader.py:127  read_and_decompress_il_set(4*(il//4))     default layout only
 IlSet(F, il) ==
-    LET setBytes == (ChunkBytes(F) * P(F)[2]) \div 4
+    LET setBytes == (ChunkBytes(F) * Pa(F, 2)) \div 4
         off      == setBytes * (il \div 4)
-        su       == <<1, NU(F)[2], NU(F)[3]>>
+        su       == <<1, NUa(F, 2), NUa(F, 3)>>
     IN  [reads |-> << Read(off, IF Bug = "il4x" THEN 4 * setBytes ELSE setBytes) >>, su |-> su,
          src |-> [k \in 0..(NSlots(su)-1) |-> off + k * U(F)]]
 
 \* loader.py:133  read_and_decompress_xl_set(4*(xl//4))
 XlSet(F, xl) ==
     LET first == (xl \div 4) * ChunkBytes(F)
-        incr  == IF Bug = "xlincr" THEN ChunkBytes(F) * (F.n[2] \div 4) ELSE (ChunkBytes(F) * P(F)[2]) \div 4
-        su    == <<NU(F)[1], 1, NU(F)[3]>>
-    IN  [reads |-> [c \in 1..NU(F)[1] |-> Read(first + (c-1) * incr, ChunkBytes(F))], su |-> su,
-         src |-> [k \in 0..(NSlots(su)-1) |-> first + (k \div NU(F)[3]) * incr + (k % NU(F)[3]) * U(F)]]
+        incr  == IF Bug = "xlincr" THEN ChunkBytes(F) * (F.n[2] \div 4) ELSE (ChunkBytes(F) * Pa(F, 2)) \div 4
+        su    == <<NUa(F, 1), 1, NUa(F, 3)>>
+    IN  [reads |-> [c \in 1..NUa(F, 1) |-> Read(first + (c-1) * incr, ChunkBytes(F))], su |-> su,
+         src |-> [k \in 0..(NSlots(su)-1) |-> first + (k \div NUa(F, 3)) * incr + (k % NUa(F, 3)) * U(F)]]
 
 \* loader.py:144  read_and_decompress_zslice_set(blocks_per_dim, z//bz, z)
 ZSet(F, z) ==
     LET zfb == z \div F.b[3]
         uin == IF Bug = "zunit" THEN 0 ELSE (z % F.b[3]) \div 4
-        n   == NB(F)[1] * NB(F)[2]
-        su  == <<NU(F)[1], NU(F)[2], 1>>
+        n   == NBa(F, 1) * NBa(F, 2)
+        su  == <<NUa(F, 1), NUa(F, 2), 1>>
         at(c) == zfb * BlockBytes(F) + uin * U(F) + c * ChunkBytes(F)
     IN  [reads |-> [c \in 1..n |-> Read(at(c-1), U(F))], su |-> su,
          src |-> [k \in 0..(n-1) |-> at(k)]]
@@ -57,13 +57,13 @@ ZSet(F, z) ==
 ZSetAdv(F, z) ==
     LET zfb  == z \div F.b[3]
         nb   == NB(F)
-        ub1  == UB(F)[1]
-        ub2  == UB(F)[2]
-        su   == <<NU(F)[1], NU(F)[2], 1>>
+        ub1  == UBa(F, 1)
+        ub2  == UBa(F, 2)
+        su   == <<NUa(F, 1), NUa(F, 2), 1>>
         rd(id) == zfb * BlockBytes(F) + id * (BlockBytes(F) * nb[3])
         \* slot (s1,s2) of the 4-thick slab <- block (s1 \div ub1, s2 \div ub2), sub-block s1 % ub1, unit s2 % ub2
-        from(k) == LET s1 == k \div NU(F)[2]
-                       s2 == k % NU(F)[2]
+        from(k) == LET s1 == k \div NUa(F, 2)
+                       s2 == k % NUa(F, 2)
                        id == (s1 \div ub1) * nb[2] + (s2 \div ub2)
                    IN  rd(id) + ((s1 % ub1) * ub2 + (s2 % ub2)) * U(F)
     IN  [reads |-> [c \in 1..(nb[1] * nb[2]) |-> Read(rd(c-1), BlockBytes(F))], su |-> su,
@@ -73,7 +73,7 @@ ZSetAdv(F, z) ==
 ChunkRange(F, lo, hi) ==
     LET cu == [a \in 1..3 |-> CeilDiv(hi[a], 4) - lo[a] \div 4]
         su == <<cu[1], cu[2], cu[3]>>
-        start(i, x) == U(F) * (((lo[1] \div 4) + i) * NU(F)[2] * NU(F)[3] + ((lo[2] \div 4) + x) * NU(F)[3] + lo[3] \div 4)
+        start(i, x) == U(F) * (((lo[1] \div 4) + i) * NUa(F, 2) * NUa(F, 3) + ((lo[2] \div 4) + x) * NUa(F, 3) + lo[3] \div 4)
     IN  [reads |-> [c \in 1..(cu[1] * cu[2]) |-> Read(start((c-1) \div cu[2], (c-1) % cu[2]), U(F) * cu[3])], su |-> su,
          src |-> [k \in 0..(NSlots(su)-1) |-> start(Slot(k, su)[1], Slot(k, su)[2]) + Slot(k, su)[3] * U(F)]]
 
@@ -83,7 +83,7 @@ Unshuffle(F, lo, hi) ==
         b0 == [a \in 1..3 |-> lo[a] \div F.b[a]]
         ub == UB(F)
         su == <<cb[1] * ub[1], cb[2] * ub[2], cb[3] * ub[3]>>
-        blk(j) == BlockBytes(F) * (NB(F)[3] * (NB(F)[2] * (b0[1] + j[1]) + (b0[2] + j[2])) + (b0[3] + j[3]))
+        blk(j) == BlockBytes(F) * (NBa(F, 3) * (NBa(F, 2) * (b0[1] + j[1]) + (b0[2] + j[2])) + (b0[3] + j[3]))
         cbs == <<cb[1], cb[2], cb[3]>>
         from(k) == LET s == Slot(k, su)
                        j == <<s[1] \div ub[1], s[2] \div ub[2], s[3] \div ub[3]>>
@@ -94,14 +94,17 @@ Unshuffle(F, lo, hi) ==
 
 \* loader.py:62  read_and_decompress_trace_range(min_id, min_id + 4)   (2-D, bx = 4)
 TraceRange2d(F, g) ==           \* g = trace group index
-    LET su == <<1, 1, NU(F)[3]>>
+    LET su == <<1, 1, NUa(F, 3)>>
     IN  [reads |-> << Read(ChunkBytes(F) * g, ChunkBytes(F)) >>, su |-> su,
          src |-> [k \in 0..(NSlots(su)-1) |-> ChunkBytes(F) * g + k * U(F)]]
 
 (***************************************************************************)
 (* read.py: dispatch, bounds checks, crops                                 *)
 (***************************************************************************)
-Part(L, crop, lo, hi) == [L |-> L, crop |-> crop, lo |-> lo, hi |-> hi]
+\* m/key: the maxsize-1 cache (loader method) the buffer goes through and the arguments it is keyed by (the cache
+\* is class level, so the key also contains the loader instance, i.e. the reader); ck: key of the per-reader
+\* containing-chunk LRU when the part comes from get_trace, <<>> otherwise
+PartK(L, crop, lo, hi, m, key) == [L |-> L, crop |-> crop, lo |-> lo, hi |-> hi, m |-> m, key |-> key, ck |-> <<>>]
 Value(parts) == [kind |-> "value", parts |-> parts]
 DefaultLayout(F) == F.b[1] = 4 /\ F.b[2] = 4
 
@@ -112,27 +115,33 @@ ReadSubvolume(F, lo, hi, pad) ==
     IN  IF F.dim = 2 THEN WrongDim
         ELSE IF ~(\A a \in 1..3 : WinOK(lo[a], hi[a], up[a])) THEN IndexErr
         ELSE IF DefaultLayout(F)
-             THEN Value(<< Part(ChunkRange(F, lo, hi), <<lo[1] % 4, lo[2] % 4,
-                                                         IF Bug = "cropmod" THEN lo[3] % F.b[3] ELSE lo[3] % 4>>, lo, hi) >>)
-             ELSE Value(<< Part(Unshuffle(F, lo, hi), <<lo[1] % F.b[1], lo[2] % F.b[2], lo[3] % F.b[3]>>, lo, hi) >>)
+             THEN Value(<< PartK(ChunkRange(F, lo, hi), <<lo[1] % 4, lo[2] % 4,
+                                                          IF Bug = "cropmod" THEN lo[3] % F.b[3] ELSE lo[3] % 4>>, lo, hi,
+                                 "chunk_range", IF Bug = "crkey" THEN <<hi, <<lo[1], lo[2], 0>>, ~pad>> ELSE <<hi, lo, ~pad>>) >>)
+             ELSE Value(<< PartK(Unshuffle(F, lo, hi), <<lo[1] % F.b[1], lo[2] % F.b[2], lo[3] % F.b[3]>>, lo, hi,
+                                 "unshuffle", <<hi, lo>>) >>)
 
 ReadInline(F, i) ==
     IF F.dim = 2 THEN WrongDim
     ELSE IF ~(0 <= i /\ i < F.n[1]) THEN IndexErr
-    ELSE IF DefaultLayout(F) THEN Value(<< Part(IlSet(F, i), <<i % 4, 0, 0>>, <<i, 0, 0>>, <<i + 1, F.n[2], F.n[3]>>) >>)
+    ELSE IF DefaultLayout(F) THEN Value(<< PartK(IlSet(F, i), <<i % 4, 0, 0>>, <<i, 0, 0>>, <<i + 1, F.n[2], F.n[3]>>,
+                                                    "il_set", <<4 * (i \div 4)>>) >>)
     ELSE ReadSubvolume(F, <<i, 0, 0>>, <<i + 1, F.n[2], F.n[3]>>, FALSE)
 
 ReadCrossline(F, x) ==
     IF F.dim = 2 THEN WrongDim
     ELSE IF ~(0 <= x /\ x < F.n[2]) THEN IndexErr
-    ELSE IF DefaultLayout(F) THEN Value(<< Part(XlSet(F, x), <<0, x % 4, 0>>, <<0, x, 0>>, <<F.n[1], x + 1, F.n[3]>>) >>)
+    ELSE IF DefaultLayout(F) THEN Value(<< PartK(XlSet(F, x), <<0, x % 4, 0>>, <<0, x, 0>>, <<F.n[1], x + 1, F.n[3]>>,
+                                                    "xl_set", <<4 * (x \div 4)>>) >>)
     ELSE ReadSubvolume(F, <<0, x, 0>>, <<F.n[1], x + 1, F.n[3]>>, FALSE)
 
 ReadZslice(F, z) ==
     IF F.dim = 2 THEN WrongDim
     ELSE IF ~(0 <= z /\ z < F.n[3]) THEN IndexErr
-    ELSE IF DefaultLayout(F) THEN Value(<< Part(ZSet(F, z), <<0, 0, z % 4>>, <<0, 0, z>>, <<F.n[1], F.n[2], z + 1>>) >>)
-    ELSE IF F.b[3] = 4 THEN Value(<< Part(ZSetAdv(F, z), <<0, 0, z % 4>>, <<0, 0, z>>, <<F.n[1], F.n[2], z + 1>>) >>)
+    ELSE IF DefaultLayout(F) THEN Value(<< PartK(ZSet(F, z), <<0, 0, z % 4>>, <<0, 0, z>>, <<F.n[1], F.n[2], z + 1>>,
+                                                    "zslice_set", IF Bug = "zkey" THEN <<z \div F.b[3]>> ELSE <<z \div F.b[3], z>>) >>)
+    ELSE IF F.b[3] = 4 THEN Value(<< PartK(ZSetAdv(F, z), <<0, 0, z % 4>>, <<0, 0, z>>, <<F.n[1], F.n[2], z + 1>>,
+                                                  "zslice_set_adv", <<z \div F.b[3]>>) >>)
     ELSE ReadSubvolume(F, <<0, 0, z>>, <<F.n[1], F.n[2], z + 1>>, FALSE)
 
 ByCoord(A, cnt, c, rd(_)) == LET k == CoordIndex(A, cnt, c) IN IF k = None THEN IndexErr ELSE rd(k)
@@ -157,8 +166,9 @@ GetTrace3(F, index, mn0, mx0, override) ==
                           ch == ReadSubvolume(F, <<ri, rx, zlo>>, <<ri + F.b[1], rx + F.b[2], zhi>>, TRUE)
                       IN  IF ch.kind = "raise" THEN ch
                           ELSE LET p == ch.parts[1]
-                               IN  Value(<< Part(p.L, <<p.crop[1] + (il % F.b[1]), p.crop[2] + (xl % F.b[2]), p.crop[3] + mn - zlo>>,
-                                                 <<il, xl, mn>>, <<il + 1, xl + 1, mx>>) >>)
+                               IN  Value(<< [PartK(p.L, <<p.crop[1] + (il % F.b[1]), p.crop[2] + (xl % F.b[2]), p.crop[3] + mn - zlo>>,
+                                                   <<il, xl, mn>>, <<il + 1, xl + 1, mx>>, p.m, p.key)
+                                             EXCEPT !.ck = IF Bug = "ckey" THEN <<ri, zlo, zhi>> ELSE <<ri, rx, zlo, zhi>>] >>)
 
 GetTrace2(F, index, mn0, mx0) ==
     LET mn == IF mn0 = None THEN 0 ELSE mn0
@@ -168,16 +178,18 @@ GetTrace2(F, index, mn0, mx0) ==
         zhi == F.b[3] * CeilDiv(mx, F.b[3])
     IN  IF ~(0 <= index /\ index < F.n[2]) THEN IndexErr
         ELSE IF ~(0 <= mn /\ mn < mx /\ mx <= F.n[3]) THEN IndexErr
-        ELSE IF F.b[2] = 4 /\ zlo = 0 /\ zhi = P(F)[3]
-             THEN Value(<< Part(TraceRange2d(F, g), <<0, index % 4, mn>>, <<0, index, mn>>, <<1, index + 1, mx>>) >>)
+        ELSE IF F.b[2] = 4 /\ zlo = 0 /\ zhi = Pa(F, 3)
+             THEN Value(<< PartK(TraceRange2d(F, g), <<0, index % 4, mn>>, <<0, index, mn>>, <<1, index + 1, mx>>,
+                                 "trace_range", <<F.b[2] * g, F.b[2] * g + F.b[2]>>) >>)
              ELSE LET lo == <<0, F.b[2] * g, zlo>>
                       hi == <<1, F.b[2] * g + F.b[2], zhi>>
-                  IN  Value(<< Part(Unshuffle(F, lo, hi), <<0, index % F.b[2], mn - zlo>>, <<0, index, mn>>, <<1, index + 1, mx>>) >>)
+                  IN  Value(<< PartK(Unshuffle(F, lo, hi), <<0, index % F.b[2], mn - zlo>>, <<0, index, mn>>, <<1, index + 1, mx>>,
+                                     "unshuffle_2d", <<hi, lo>>) >>)
 
 ReadSubplane(F, lo, hi) ==         \* lo, hi = <<0,t,z>>, <<1,t',z'>>
     IF F.dim = 3 THEN WrongDim
     ELSE IF ~(WinOK(lo[2], hi[2], F.n[2]) /\ WinOK(lo[3], hi[3], F.n[3])) THEN IndexErr
-    ELSE Value(<< Part(Unshuffle(F, lo, hi), <<0, lo[2] % F.b[2], lo[3] % F.b[3]>>, lo, hi) >>)
+    ELSE Value(<< PartK(Unshuffle(F, lo, hi), <<0, lo[2] % F.b[2], lo[3] % F.b[3]>>, lo, hi, "unshuffle_2d", <<hi, lo>>) >>)
 
 \* diagonals: one get_trace per position (read.py:492-620)
 DiagLenC(F, cd) == Len(CorrPos(F, cd))         \* utils.get_correlated_diagonal_length has the same value (checked in MC)
@@ -224,10 +236,10 @@ Call(F, op, a) ==
 \* every decode slot the crop region touches holds the unit the claim [lo,hi) says it holds, and was fetched
 PartCoherent(F, p) ==
     LET su == p.L.su
-        ok(a) == (p.lo[a] - p.crop[a]) % E(F)[a] = 0
-        base == [a \in 1..3 |-> (p.lo[a] - p.crop[a]) \div E(F)[a]]
-        first(a) == p.crop[a] \div E(F)[a]
-        last(a)  == (p.crop[a] + p.hi[a] - p.lo[a] - 1) \div E(F)[a]
+        ok(a) == (p.lo[a] - p.crop[a]) % UE(F, a) = 0
+        base == [a \in 1..3 |-> (p.lo[a] - p.crop[a]) \div UE(F, a)]
+        first(a) == p.crop[a] \div UE(F, a)
+        last(a)  == (p.crop[a] + p.hi[a] - p.lo[a] - 1) \div UE(F, a)
     IN  /\ \A a \in 1..3 : ok(a) /\ p.hi[a] > p.lo[a] /\ last(a) < su[a]
         /\ \A s1 \in first(1)..last(1), s2 \in first(2)..last(2), s3 \in first(3)..last(3) :
               LET off == p.L.src[Raster(<<s1, s2, s3>>, su)]
